@@ -72,6 +72,7 @@ fn dispatch(session: &mut Session, cmd: &J) -> Result<J, String> {
 		"ser" => op_ser(session, cmd),
 		"de" => op_de(session, cmd),
 		"ser_de" => op_ser_de(session, cmd),
+		"de_sum" => op_de_sum(session, cmd),
 		"writer" => crate::container::op_writer(session, cmd),
 		"walk" => crate::container::op_walk(cmd),
 		"assemble" => crate::container::op_assemble(cmd),
@@ -557,4 +558,71 @@ fn op_rabin(cmd: &J) -> Result<J, String> {
 		let _ = cmd;
 		Ok(json!({"res": "unavailable"}))
 	}
+}
+
+/// Decode with the non-allocating `Sum` target, measuring allocations, buffer refills and wall time.
+fn op_de_sum(session: &mut Session, cmd: &J) -> Result<J, String> {
+	use crate::capture::SumSeed;
+	use serde_avro_fast::de::{read::ReaderRead, DeserializerConfig, DeserializerState};
+	use std::sync::atomic::Ordering;
+	let schema = match session.schema(&cmd["schema"]) {
+		Ok(s) => s,
+		Err(e) => return Ok(json!({"res": "schema_err", "msg": e})),
+	};
+	let bytes = bytes_of(&cmd["bytes"])?;
+	let opts = de_opts(cmd);
+	let mut config = DeserializerConfig::new(&schema.schema);
+	if let Some(d) = opts.depth {
+		config.allowed_depth = d;
+	}
+	if let Some(m) = opts.max_seq {
+		config.max_seq_size = m;
+	}
+	let reader = &cmd["reader"];
+	let kind = reader.get("kind").and_then(|k| k.as_str()).unwrap_or("slice");
+	let mut prebuilt = if kind != "slice" {
+		let sched: Vec<usize> = reader
+			.get("sched")
+			.and_then(|s| s.as_array())
+			.map(|a| a.iter().map(|x| x.as_u64().unwrap_or(1) as usize).collect())
+			.unwrap_or_default();
+		Some(ChunkedReader::new(bytes.clone(), sched))
+	} else {
+		None
+	};
+	let t0 = std::time::Instant::now();
+	let (a0, b0) = (crate::ALLOCS.load(Ordering::Relaxed), crate::ALLOC_BYTES.load(Ordering::Relaxed));
+	crate::PEAK_BYTES.store(crate::LIVE_BYTES.load(Ordering::Relaxed), Ordering::Relaxed);
+	let live0 = crate::LIVE_BYTES.load(Ordering::Relaxed);
+	let (res, consumed, fill_calls): (Result<u64, String>, usize, usize) = match kind {
+		"slice" => {
+			let mut state = DeserializerState::with_config(serde_avro_fast::de::read::SliceRead::new(&bytes), config);
+			let r = SumSeed.deserialize(state.deserializer()).map_err(|e| e.to_string());
+			let rest = {
+				use std::io::BufRead;
+				let mut rd = state.into_reader();
+				rd.fill_buf().map(|b| b.len()).unwrap_or(0)
+			};
+			(r, bytes.len() - rest, 0)
+		}
+		_ => {
+			let cr = prebuilt.take().unwrap();
+			let mut rr = ReaderRead::new(cr);
+			if let Some(m) = opts.max_alloc {
+				rr.max_alloc_size = m;
+			}
+			let mut state = DeserializerState::with_config(rr, config);
+			let r = SumSeed.deserialize(state.deserializer()).map_err(|e| e.to_string());
+			let cr = state.into_reader().into_inner();
+			(r, cr.consumed(), cr.fill_calls)
+		}
+	};
+	let (a1, b1) = (crate::ALLOCS.load(Ordering::Relaxed), crate::ALLOC_BYTES.load(Ordering::Relaxed));
+	let peak = crate::PEAK_BYTES.load(Ordering::Relaxed).saturating_sub(live0);
+	let ms = t0.elapsed().as_millis() as u64;
+	// (for the reader kind the clone of the input made above is part of the measured window: subtracted by the driver)
+	Ok(match res {
+		Ok(sum) => json!({"res": "ok", "sum": sum.to_string(), "consumed": consumed, "allocs": a1 - a0, "alloc_bytes": b1 - b0, "peak": peak, "fill_calls": fill_calls, "ms": ms}),
+		Err(e) => json!({"res": "err", "msg": e, "allocs": a1 - a0, "alloc_bytes": b1 - b0, "peak": peak, "fill_calls": fill_calls, "ms": ms}),
+	})
 }
